@@ -500,7 +500,6 @@ coap_cancel_observe_lkd(coap_session_t *session, coap_binary_t *token,
           coap_delete_pdu(pdu);
           return 0;
         }
-        lg_crcv->observe_set = 0;
         if (lg_crcv->o_block_option) {
           coap_update_option(pdu, lg_crcv->o_block_option,
                              coap_encode_var_safe(buf, sizeof(buf),
@@ -527,8 +526,10 @@ coap_cancel_observe_lkd(coap_session_t *session, coap_binary_t *token,
 #else /* ! COAP_Q_BLOCK_SUPPORT */
         mid = coap_send_internal(session, pdu);
 #endif /* ! COAP_Q_BLOCK_SUPPORT */
-        if (mid != COAP_INVALID_MID)
+        if (mid != COAP_INVALID_MID) {
+          lg_crcv->observe_set = 0;
           return 1;
+        }
         break;
       }
     }
